@@ -610,6 +610,17 @@ int cif_container_create_frame_internal(
         ) INTERNAL ;
 
 /*
+ * An internal version of cif_container_get_frame() that allows frame code
+ * validation to be suppressed (when 'lenient' is nonzero)
+ */
+int cif_container_get_frame_internal(
+        cif_container_tp *container,
+        const UChar *code,
+        int lenient,
+        cif_frame_tp **frame
+        ) INTERNAL ;
+
+/*
  * An internal version of cif_loop_add_item that performs no validation or normalization and provides the number
  * of changes (== the number of loop packets) back to the caller
  */
